@@ -44,6 +44,30 @@ Proof.
   cbv beta iota in H. cbn [ostr_eqb] in H. apply list_eqb_eq in H. subst t. reflexivity.
 Qed.
 
+(* ... and conversely (the SAFETY direction): whenever TubRef's own __eq__ says the peer's TubRef equals the dialled one, the id-level
+   test of the translated checks passes too -- so `theirTubRef != self.target` refuses exactly what the model's comparison refuses;
+   no side condition *)
+Theorem client_check_is_tubref_eq_converse t target :
+  tubref_eqb (tubref_of_id t) target = true -> ostr_eqb (Some t) (Some (tub_of target)) = true.
+Proof.
+  intros H. apply tubref_eq in H. unfold tubref_of_id in H. cbn [sr_tub] in H. unfold tub_of. rewrite <- H.
+  apply ostr_eqb_eq. reflexivity.
+Qed.
+
+Theorem client_check_iff_tubref_eq t target :
+  sr_tub target <> None ->
+  (ostr_eqb (Some t) (Some (tub_of target)) = true <-> tubref_eqb (tubref_of_id t) target = true).
+Proof.
+  intros Hn. split; [intros H; apply client_check_is_tubref_eq; assumption|apply client_check_is_tubref_eq_converse].
+Qed.
+
+(* the side condition of the completeness direction is needed: a connector whose target TubRef has tubID None (tub_of = "") and a
+   peer id "" are equal on ids but not as TubRefs.  (No hello is ever accepted with an empty id: evaluate_bound's t <> [].) *)
+Example client_check_side_condition_needed :
+  ostr_eqb (Some []) (Some (tub_of {| sr_tub := None; sr_hints := []; sr_name := None |})) = true /\
+  tubref_eqb (tubref_of_id []) {| sr_tub := None; sr_hints := []; sr_name := None |} = false.
+Proof. vm_compute. split; reflexivity. Qed.
+
 Section KeysProofs.
 Variable cert : Type.
 Variable tubid_of : cert -> list Z.
